@@ -47,6 +47,62 @@ def build_schema_harness(ctx, S, name, fl):
     return (exe, desc_c), None
 
 
+def deep_chain(steps):
+    """bytes of a buffer over `table T { child:T; kids:[T]; }` that is a chain of tables; steps[i] in 'c' (via child) / 'v' (via a one-element vector)"""
+    import struct
+    b = bytearray(8)
+    struct.pack_into('<I', b, 0, 8 + 8)                     # root table right after its vtable
+    for i, st in enumerate(list(steps) + ['end']):
+        vt = len(b)
+        if st == 'c': ent = (4, 0)
+        elif st == 'v': ent = (0, 4)
+        else: ent = (0, 0)
+        b += struct.pack('<HHHH', 8, 8, ent[0], ent[1])
+        tp = len(b)
+        b += struct.pack('<i', tp - vt)
+        slot = len(b)
+        if st == 'c': b += struct.pack('<I', 4 + 8)           # next vtable is 4 bytes ahead, next table 8 after it
+        elif st == 'v':
+            b += struct.pack('<I', 4)                          # vector right after the table
+            b += struct.pack('<I', 1) + struct.pack('<I', 4 + 8)
+        else: b += struct.pack('<I', 0)
+    return bytes(b)
+
+
+def deep_nesting(ctx, fl):
+    """nesting limit: accepted buffers never nest deeper than the documented limit; verdicts equal the model's"""
+    S = {'structs': {}, 'struct_order': [], 'unions': [], 'root': 'T',
+         'tables': [{'name': 'T', 'fields': [{'name': 'child', 'kind': 'table', 'type': 'T', 'required': False},
+                                             {'name': 'kids', 'kind': 'vec_table', 'type': 'T', 'required': False}]}]}
+    res, err = build_schema_harness(ctx, S, 'deep', fl)
+    if res is None: raise lib.CheckError('deep schema rejected: ' + err)
+    exe, dc = res
+    plans = []
+    for d in (1, 50, 97, 98, 99, 100, 101, 150):
+        plans.append('c' * d)
+    for k in (90, 95, 96, 97, 98, 99):
+        for tail in (0, 1, 2, 5, 200, 3000):
+            plans.append('c' * k + 'v' + 'c' * tail)
+            plans.append('c' * (k - 2) + 'vv' + 'c' * tail)
+    plans.append('v' * 49); plans.append('v' * 50); plans.append('v' * 51)
+    lines_i, lines_m, depth = [], ['schema deep %s' % dc['desc']], []
+    for p in plans:
+        hx = deep_chain(p).hex()
+        lines_i.append('vw T p 0 ' + hx); lines_m.append('verify deep T/0 p 0 ' + hx); depth.append(len(p) + 1)
+    out = lib.run_harness_resilient(lib.Harness(exe), lines_i, timeout=300)
+    mres = ctx.run_model('verifier', lines_m)[1:]
+    for p, li, o, m, d in zip(plans, lines_i, out, mres, depth):
+        ctx.count(li, klass='deep_nesting')
+        rep = {'schema_fbs': c01gen.render_fbs(S), 'chain': '%s (c = via table field, v = via table vector)' % (p if len(p) < 120 else p[:100] + '...(%d)' % len(p)), 'tables_on_chain': d, 'impl': o[:200], 'model_verify': m, 'harness_line': li[:200] + '...'}
+        acc = o.startswith('V 0')
+        if acc and d > 100:
+            ctx.violation('nesting-limit-bypass', 'verifier accepted a buffer nested %d tables deep (documented limit 100)' % d, rep)
+        elif 'CRASH' in o or o.startswith('V ?'):
+            ctx.violation('deep-nesting-crash', 'crash on a deeply nested buffer: ' + o[:200], rep)
+        elif (o.split()[1] if len(o.split()) > 1 else '?') != ('0' if m == 'OK' else m.split()[-1]):
+            ctx.violation('corr:verify:deep', 'verifier model and implementation disagree on a deep chain: impl %s model %s' % (o[:20], m), rep, kind='model-impl-disagreement')
+
+
 def roots_of(S):
     r = []
     for i, t in enumerate(S['tables']): r.append((t['name'], 'T/%d' % i))
@@ -77,6 +133,7 @@ def run(ctx):
     for i in range(nrand):
         schemas.append(('rn%d' % i, c01gen.gen_schema(rng, nstructs=rng.randint(0, 3), ntables=rng.randint(1, 4), nunions=rng.randint(0, 2))))
 
+    deep_nesting(ctx, fl)
     desc_mismatch = []
     for name, S in schemas:
         res, err = build_schema_harness(ctx, S, name, fl)
